@@ -49,7 +49,7 @@ type vfObject struct {
 	// VLen is set for contiguous variable-length datasets: every element resolved by the
 	// harness itself (element reference -> independently parsed global heap collection),
 	// as length:checksum per element, because the read API offers no reader for them.
-	VLen     string
+	VLen string
 	// Partial (only when vfDumpPartial is set): ReadSlice of the full extent, the same call
 	// again on the same handle (a retry), and the concatenated chunks of a full iteration;
 	// each is a printed value or ERR.
